@@ -153,6 +153,14 @@ func VerifC10_DecodeTail() {
 	c10decodeArbitrary(append(head, verif_Bytes("tail", n)...))
 }
 
+// the same with a one-element address list whose element header is arbitrary
+// (every CBOR length form, up to the 8-byte one): the per-address cap
+func VerifC10_DecodeAddressHeader() {
+	fields := byte(0x83 + verif_Choose("fieldsMinus3", 0, 1))
+	head := []byte{fields, 0xd8, 0x2a, 0x46, 0x00, 0x01, 0x55, 0x00, 0x01, 0xaa, 0x81}
+	c10decodeArbitrary(append(head, verif_Bytes("addressHeaderAndRest", 9)...))
+}
+
 // C10 (d): addresses with unknown protocol codes are skipped, malformed ones fail.
 func VerifC10_GetAddrs() {
 	good := []byte{0x04, 1, 2, 3, 4, 0x06, 0, 80} // /ip4/1.2.3.4/tcp/80
